@@ -261,10 +261,17 @@ fn gen_frac(r: &mut Sm, o: &GenOpts) -> Option<f64> {
     }
 }
 fn gen_r_bounds(r: &mut Sm, n: usize) -> Vec<(f64, f64)> {
+    // mostly human-scale boxes; sometimes microscopic or huge workspaces (absolute epsilons
+    // hidden in the code under test only show at those scales)
+    let scale = match r.below(12) {
+        0 => r.log_range(1e-7, 1e-4),
+        1 => r.log_range(1e3, 1e7),
+        _ => 1.0,
+    };
     (0..n)
         .map(|_| {
-            let s = r.log_range(0.5, 20.0);
-            let c = if r.bool(0.3) { 0.0 } else { r.range(-10.0, 10.0) };
+            let s = r.log_range(0.5, 20.0) * scale;
+            let c = if r.bool(0.3) { 0.0 } else { r.range(-10.0, 10.0) * scale };
             (c - s / 2.0, c + s / 2.0)
         })
         .collect()
